@@ -181,6 +181,14 @@ def oracle(ctx, case, obs):
                 ctx.oracle_failure(f'{where}: oracle {dobs["oracles"][i]} but |t| = {tabs!r}, critical value '
                                    f'{thr_exp!r}' + tag, case, key='oracle')
                 return False
+            if dobs['oracles'][i] != (abs(t) < thr):          # exact: the code's own t and critical value
+                ctx.oracle_failure(f'{where}: oracle {dobs["oracles"][i]} but |t| = {abs(t)!r} and the critical '
+                                   f'value is {thr!r}' + tag, case, key='oracle-exact')
+                return False
+            if dobs['pdec'][i] != (p > alpha):
+                ctx.oracle_failure(f'{where}: p-value decision {dobs["pdec"][i]} but p = {p!r}, alpha = {alpha!r}'
+                                   + tag, case, key='pvalue-decision-exact')
+                return False
             pexp = expected_pvalue(tabs, ndf)
             if not (rel_close(p, pexp, 1e-7) or (p == p and abs(p - pexp) < 1e-300)):
                 ctx.oracle_failure(f'{where}: p-value {p!r}, expected two-sided {pexp!r}' + tag, case,
@@ -325,6 +333,35 @@ def gen_case(rng, quick):
             'datasets': [[[bits(x) for x in v], [bits(x) for x in e]] for v, e in sets]}
 
 
+def boundary_cases(rng, n):
+    '''|t| == critical value exactly (and its float neighbours); alpha == p-value of a bin exactly'''
+    from valjean.eponine.dataset import Dataset
+    from valjean.gavroche.stat_tests.student import TestStudent
+    out = []
+    for _ in range(n):
+        alpha = rng.choice(ALPHAS) if rng.random() < 0.7 else round(rng.uniform(0.0005, 0.999), 4)
+        ndf = rng.choice(NDFS)
+        one = Dataset(np.float64(1.), np.float64(1.))
+        thr = float(TestStudent(one, one, name='thr', alpha=alpha, ndf=ndf).threshold)
+        size = rng.choice([1, 2, 3, 5])
+        ref_v, ref_e, oth_v, oth_e = [], [], [], []
+        for _ in range(size):
+            unit = 2.0 ** rng.randint(-8, 8)
+            tval = rng.choice([thr, thr, math.nextafter(thr, 0.0), math.nextafter(thr, INF), thr / 2])
+            a, b = (tval * unit, 0.0) if rng.random() < 0.5 else (0.0, tval * unit)
+            ea, eb = (unit, 0.0) if rng.random() < 0.5 else (0.0, unit)
+            ref_v.append(a), oth_v.append(b), ref_e.append(ea), oth_e.append(eb)
+        case = mk([size] if size > 1 or rng.random() < 0.5 else [], alpha, ndf, (ref_v, ref_e), (oth_v, oth_e))
+        out.append(case)
+        if rng.random() < 0.5:                      # alpha := the p-value of one of the bins
+            obs = run_impl(case)
+            ps = [unbits(b) for b in obs.get('datasets', [{'p': []}])[0]['p']]
+            ps = [q for q in ps if 0 < q < 1]
+            if ps:
+                out.append(dict(case, alpha=rng.choice(ps)))
+    return out
+
+
 def mk(shape, alpha, ndf, *sets):
     return {'shape': shape, 'alpha': alpha, 'ndf': ndf,
             'datasets': [[[bits(x) for x in v], [bits(x) for x in e]] for v, e in sets]}
@@ -389,7 +426,7 @@ def classify(ctx, case, obs):
 def run(ctx):
     common.import_repo()
     quick = ctx.tier == 'quick'
-    ctx.rule = ('corpus (docstring examples, 0/0, NaN/inf patterns, signed zeros) + random comparisons: scalar to 4-d, '
+    ctx.rule = ('corpus (docstring examples, 0/0, NaN/inf patterns, signed zeros) + boundary cases (|t| == critical value exactly and its float neighbours, alpha == p-value of a bin) + random comparisons: scalar to 4-d, '
                 '1..3 compared datasets, differences of 0.5..3 sigma, exact ties 12%, zero errors 10%, NaN/inf 5% '
                 'each in a third of the cases, magnitudes 1e-170..1e160, alpha in {0.001..0.5} or random, ndf in '
                 '{None,1,2,10,1000}; each case also run swapped, rescaled by 2^k, with grown differences and with '
@@ -397,6 +434,8 @@ def run(ctx):
     cases = corpus()
     ctx.count('corpus', len(cases))
     nrand = 800 if quick else 24000
+    cases += boundary_cases(ctx.rng, 60 if quick else 1500)
+    ctx.count('boundary', len(cases) - 10)
     cases += [gen_case(ctx.rng, quick) for _ in range(nrand)]
     done = []
     t_start = time.time()
